@@ -13,7 +13,7 @@
  *   ev <prog> <tok>...       line-number bookkeeping events of one finished compilation (hook in icode.c/compiler.c)
  *                              b | s:<line>:<addr>:<block> | r:<line>:<addr>:<block> (replayed by __INIT placement) | f:<fileid>:<lines> | a:<fileid>:<name> | i:<base>:<size> | e:<psize>
  *   fn <prog> <name>,...     function table of a program (index order)
- *   tab <prog> psize=<n> fi=<count>:<file>,... li=<len>:<line16>,... files=<id>:<name>,...
+ *   tab <prog> psize=<n> hdr=<file_info[0]>:<file_info[1]> fi=<count>:<file>,... li=<len>:<line16>,... files=<id>:<name>,...
  *                            the real file_info / line_info tables (raw unsigned 16 bit values) and the program size
  *   tra <prog> <cnt>*<fileid>:<firstline>|<cnt>*- ...   the real translate_absolute_line() for EVERY absolute line 0..total+2
  *   dec <prog> <cnt>*<text> ...   run-length list of the real get_line_number() answer for EVERY offset 0..psize
@@ -182,7 +182,7 @@ static void dump_prog (const program_t * prog, int force)
           li_end = q;
       }
       int seen[512], nseen = 0;
-      tb_add (&t, "tab %s psize=%d fi=", prog->name, (int) prog->program_size);
+      tb_add (&t, "tab %s psize=%d hdr=%d:%d fi=", prog->name, (int) prog->program_size, (int) fi[0], (int) fi[1]);
       for (int i = 2; i + 1 < lnoff; i += 2)
         tb_add (&t, "%s%d:%d", i > 2 ? "," : "", (int) fi[i], (int) fi[i + 1]);
       if (lnoff <= 2)
@@ -260,13 +260,13 @@ static void dump_prog (const program_t * prog, int force)
 
   /* the real decoder on every offset */
   {
-    char prev[300] = "";
+    static char prev[PATH_MAX + 64], cur[PATH_MAX + 64];
     int cnt = 0;
+    prev[0] = 0;
     tb_add (&t, "dec %s", prog->name);
     for (int off = 0; off <= (int) prog->program_size; off++)
       {
         char *r = get_line_number (prog->program + off, prog);
-        char cur[300];
         snprintf (cur, sizeof cur, "%s", r);
         for (char *q = cur; *q; q++)
           if (*q == ' ')
